@@ -1,7 +1,7 @@
 (* Bounded theorems (the bound is in the name): for every token triple over the
    full token alphabet, and every token sequence of length <= 5 over the
    reduced alphabet, accepted by the parser and builder models, the built code
-   is well-formed (or the tree is in a listed finding class), and the tree
+   is well-formed (or the tree is in class C05-K2, which the parser does not produce), and the tree
    compiler of Model/Compile.v produces exactly what the worklist model
    produces -- for three initial states of the data object.  Proved by
    evaluation (vm_compute) over the complete enumeration. *)
@@ -16,7 +16,7 @@ Definition inits : list binit :=
 
 Definition known_b (init : binit) (nodes : list pnode) (root : nat) : bool :=
   match tree_of nodes root with
-  | Some t => has_empty_body t || empty_after_end init t
+  | Some t => drops_arms t
   | None => false
   end.
 
@@ -105,7 +105,7 @@ Lemma check_build_wf : forall nodes root init r,
   build nodes init lit_all (build_fuel nodes) root = Ok r ->
   (exists c, compile_nodes nodes init lit_all root = Ok c /\ same_code c r = true) /\
   (wf_code nodes init (code_of_build r) \/
-   exists t, tree_of nodes root = Some t /\ Known_C05_K1 init t).
+   exists t, tree_of nodes root = Some t /\ Known_C05_K2 t).
 Proof.
   intros nodes root init r Hc Hb. unfold check_build in Hc. rewrite Hb in Hc.
   destruct (compile_nodes nodes init lit_all root) as [c| | |]; try discriminate.
@@ -113,7 +113,7 @@ Proof.
   apply orb_true_iff in Hw. destruct Hw as [Hw|Hk].
   - left. apply wf_code_b_sound. exact Hw.
   - right. unfold known_b in Hk. destruct (tree_of nodes root) as [t|]; [|discriminate].
-    exists t. split; [reflexivity|]. unfold Known_C05_K1. apply orb_true_iff in Hk. exact Hk.
+    exists t. split; [reflexivity|]. exact Hk.
 Qed.
 
 Lemma check_b_init : forall toks root nodes init,
@@ -129,7 +129,7 @@ Definition build_wf_or_known (toks : list token_type) (init : binit) : Prop :=
     parse toks = Ok (root, nodes) ->
     build nodes init lit_all (build_fuel nodes) root = Ok r ->
     wf_code nodes init (code_of_build r) \/
-    exists t, tree_of nodes root = Some t /\ Known_C05_K1 init t.
+    exists t, tree_of nodes root = Some t /\ Known_C05_K2 t.
 
 (* the tree compiler and the worklist model agree: same code, or the same error class *)
 Definition compile_agrees (toks : list token_type) (init : binit) : Prop :=
